@@ -7,7 +7,11 @@ import (
 
 var ifExpression ifExpressionParser
 
-var untilElseIfElseOrEnd = parse.Any(StripType(elseIfExpression), StripType(elseExpression), StripType(closeBraceWithOptionalPadding))
+// The end of a block of nodes is recognised by the start of what follows it (`} else if`, `} else {`
+// or `}`). Running the complete else if / else parsers here would parse every nested else body
+// twice per level of nesting.
+var elseIfStart = parse.All(parse.OptionalWhitespace, closeBrace, parse.OptionalWhitespace, parse.String("else if"))
+var untilElseIfElseOrEnd = parse.Any(StripType(elseIfStart), StripType(endElseParser), StripType(closeBraceWithOptionalPadding))
 
 type ifExpressionParser struct{}
 
